@@ -5,11 +5,15 @@
 (* order; the first one that rejects, cannot be reached, answers non-200   *)
 (* or returns an unparsable body refuses the operation; content rewritten  *)
 (* by one plugin is what the next one and finally the server act on.       *)
+(* Close-proxy notifications are not a gate: every plugin registered for   *)
+(* them is told about every proxy that stops, whatever the others answer.  *)
 (* Property C15.                                                           *)
 (***************************************************************************)
 EXTENDS Integers, FiniteSets, Sequences, TLC
 
-CONSTANTS Ops, Outcomes, MaxPlugins
+CONSTANTS Ops, Outcomes, MaxPlugins,
+          CloseOp,      \* the notification operation (not in Ops: it gates nothing)
+          Deviations    \* {} or a subset of {"CloseStopsAtError"}: the chain of notifications ends at the first plugin that fails
 Accepting == {"same", "changed"}            \* every other outcome (reject, http500, reset, badjson, emptybody) refuses
 
 \* a chain is a sequence of plugins [ops : SUBSET Ops, out : Outcomes]; content versions are naturals:
@@ -39,8 +43,19 @@ Decl(chain, op) ==
    content |-> ContentBefore(cs, n + 1),
    seen |-> [i \in 1..n |-> <<cs[i].idx, ContentBefore(cs, i)>>]]
 
+\* close notifications (manager.go CloseProxy): errors are collected, the loop goes on
+RECURSIVE FoldClose(_, _)
+FoldClose(cs, seen) ==
+  IF cs = <<>> THEN seen
+  ELSE LET h == Head(cs) IN
+       IF "CloseStopsAtError" \in Deviations /\ h.p.out \notin Accepting
+       THEN Append(seen, h.idx)
+       ELSE FoldClose(Tail(cs), Append(seen, h.idx))
+CloseImpl(chain) == FoldClose(Consulted(chain, CloseOp), <<>>)
+CloseDecl(chain) == LET cs == Consulted(chain, CloseOp) IN [i \in 1..Len(cs) |-> cs[i].idx]
+
 VARIABLE chain
-Plugins == [ops : SUBSET Ops, out : Outcomes]
+Plugins == [ops : SUBSET (Ops \cup {CloseOp}), out : Outcomes]
 Init == chain = <<>>
 Next == Len(chain) < MaxPlugins /\ \E p \in Plugins : chain' = Append(chain, p)
 Spec == Init /\ [][Next]_chain
@@ -50,4 +65,5 @@ ImplEqualsDecl == \A op \in Ops : Impl(chain, op).proceed = Decl(chain, op).proc
                                   /\ (Impl(chain, op).proceed => Impl(chain, op).content = Decl(chain, op).content)
 ProceedIffAllAccepted == \A op \in Ops : Impl(chain, op).proceed <=> \A i \in 1..Len(chain) : op \in chain[i].ops => chain[i].out \in Accepting
 UnregisteredNotConsulted == \A op \in Ops : \A i \in 1..Len(Impl(chain, op).seen) : op \in chain[Impl(chain, op).seen[i][1]].ops
+CloseNotifiesAll == CloseImpl(chain) = CloseDecl(chain)
 =============================================================================
